@@ -9,7 +9,7 @@ from . import common as cm
 from robotools.evotools.utils import get_well_position as evo_pos  # noqa: E402
 from robotools.fluenttools.utils import get_well_position as fluent_pos  # noqa: E402
 
-BAD_IDS = ["A5", "A005", "a01", "AA01", "C01", "A07", "A00", "", "1A", "A1 ", "A-1", "Z01", "A100"]
+BAD_IDS = ["A5", "A005", "a01", "AA01", "C01", "A07", "A00", "", "1A", "A1 ", "A-1", "Z01", "A100", "A010", "A011", "A01 ", "B0110", "A01x", " A01"]
 
 
 class Harness(cm.BaseB):
